@@ -43,7 +43,7 @@ def one_file(ctx, rng, path, via_class, big=False):
     coord = str(rng.choice(["x", "xs", "xu"]))
     cellkind = str(rng.choice(["ortho", "ortho", "tri+", "tri-", "tri", "tri0"]))
     nframes = int(rng.choice([1, 1, 2, 3, 5, 2, 3, 8, 1, 30]))
-    order = str(rng.choice(["sorted", "reversed", "random", "random"]))
+    order = str(rng.choice(["sorted", "reversed", "random", "mixed"]))
     fmt = str(rng.choice(["repr", "g", "e", "f"]))
     origin_kind = str(rng.choice(["zero", "neg", "large", "asym", "centred"]))
     extra = int(rng.integers(0, 5))
@@ -76,6 +76,8 @@ def one_file(ctx, rng, path, via_class, big=False):
     info = lambda: {"class": cls, "order": order, "fmt": fmt, "origin": origin_kind, "nframes": nframes,  # noqa: E731
                     "file_text": text if len(text) < 6000 else text[:6000] + "...", "via": "DumpReader" if via_class else "wrapper"}
     nontrivial = N0 >= 2 and (origin_kind != "zero" or cellkind != "ortho" or order != "sorted" or nframes > 1)
+    if order == "mixed" and nframes > 1:
+        ctx.count("line_order_differs_between_frames")
     ctx.case(cls, text, nontrivial=nontrivial,
              sample={"order": order, "nframes": nframes, "timesteps": ts, "head": text[:600]})
     key = f"read_lammps/{coord}/{'triclinic' if cellkind != 'ortho' else 'orthogonal'}"
